@@ -361,7 +361,7 @@ def check_property(pid, tier, seed, reg, results_cache):
         if lemma_fail:
             undecided.append({'unit': r['unit'], 'why': ['specification-side lemma failed (not repository code): ' + e['text'][:400] for e in lemma_fail]})
         for f in r['fns']:
-            if pid not in f['props']:
+            if pid not in f['props'] and r['unit'] not in spec.get('units_all', []):
                 continue
             for k, v in f['rewrites'].items():
                 rewrites[k] = rewrites.get(k, 0) + v
